@@ -649,6 +649,9 @@ func propSpecs() map[string]PropSpec {
 			}
 			// also the sizes just below the minimum: they must be rejected, not half-accepted
 			mk(min-3, min, 0)
+			// sizes at which the disk runs out while the big file crosses from the
+			// indirect into the double-indirect range (file block 520)
+			mk(min+505, min+560, 1)
 			// disks with two and three block-bitmap blocks, filled completely
 			mk(32768+5+seed%7, 32768+6+seed%7, 1)
 			if tier == "thorough" {
